@@ -419,8 +419,8 @@ RunTo(S, p, n) ==
        ELSE RunTo(Apply(S), p, n)
 
 \* crash points an operation passes, in order (with repetitions)
-PointsOf(f, m, op) == LET pl == Plan(f, m, op) IN
-                      [i \in 1..Len(SelectSeq(pl, LAMBDA h : h.i = "cp")) |-> SelectSeq(pl, LAMBDA h : h.i = "cp")[i].p]
+PointsOf(f, m, op) == LET cps == SelectSeq(Plan(f, m, op), LAMBDA h : h.i = "cp") IN
+                      [i \in 1..Len(cps) |-> cps[i].p]
 
 -----------------------------------------------------------------------------
 (* actions *)
@@ -482,13 +482,16 @@ C05_ReadAt(sc, rd) ==
 
 \* the leader-epoch history matches the records present: epochs increase,
 \* records before an epoch's start offset are older, records after it are not,
-\* and the epoch of every record present is known
+\* and no record present is newer than the latest epoch the cache knows.  (The
+\* record AT a start offset may be older: NewLeaderEpoch records the epoch at
+\* the offset of the last message, and retention may then drop the entry of
+\* that older epoch - not a matter of crash recovery.)
 C05_Epochs(sc, ep) ==
   /\ \A i \in 1..Len(ep) - 1 : ep[i].e < ep[i + 1].e /\ ep[i].s <= ep[i + 1].s
   /\ \A i \in 1..Len(ep), j \in 1..Len(sc) :
         /\ sc[j].off < ep[i].s => sc[j].ep < ep[i].e
         /\ sc[j].off > ep[i].s => sc[j].ep >= ep[i].e
-  /\ \A j \in 1..Len(sc) : \E i \in 1..Len(ep) : ep[i].e = sc[j].ep
+  /\ \A j \in 1..Len(sc) : sc[j].ep <= LatestEpoch(ep)
 
 StateOK(sc, nw, rd, ep) ==
   C05_NoDup(sc) /\ C05_NewestOK(sc, nw) /\ C05_ReadAt(sc, rd) /\ C05_Epochs(sc, ep)
